@@ -157,6 +157,7 @@ def load(text, trace=None):
 # ------------------------------------------------------------------ dataset recipes
 UNITS = [None, None, "m", "cm", "km", "s", "deg"]
 COLORS = ["#aa3311", "red", "#00ff7f", "0.35", "#123456", "blue"]
+ORDER_MODES = ["plain", "plain", "plain", "derived_early", "reorder_first", "reorder_middle", "reversed_chain"]
 COORD_KINDS = [None, None, "identity", "diagonal", "coupled_symmetric", "coupled_triangular", "permuted", "full", "wcs"]
 
 
@@ -172,10 +173,26 @@ def make_wcs(rng, nd):
 
 
 def rand_style(rng, with_cmap=False):
+    """Style attribute values; a third of the styles take the extreme legal values: the falsy ones (alpha 0 = fully
+    transparent, linewidth 0, markersize 0, linestyle 'none', empty marker, colour '0' = black as grey shade) and the
+    maxima (alpha 1, very wide lines, huge markers).  -> (kwargs, sorted list of extreme tags)"""
     kw = dict(color=rng.choice(COLORS), alpha=rng.choice([0.25, 0.5, 0.8, 1.0]), linewidth=rng.choice([1, 2.5, 3]),
               linestyle=rng.choice(["solid", "dashed", "dash-dot", "dotted", "none"]),
               marker=rng.choice(["o", "s", "^", "*", "+"]), markersize=rng.choice([3, 5, 7.5]))
-    return kw
+    tags = []
+    if rng.random() < 0.35:
+        for att, falsy, top in (("alpha", [0, 0.0], [1, 1.0]), ("linewidth", [0, 0.0], [100, 64.5]),
+                                ("markersize", [0], [1000]), ("marker", ["", "None"], ["$\\alpha$"]),
+                                ("color", ["0", "0.0", "#000000"], ["1.0", "#ffffff"]),
+                                ("linestyle", ["none"], ["dash-dot"])):
+            r = rng.random()
+            if r < 0.45:
+                kw[att] = rng.choice(falsy)
+                tags.append(att + ":falsy")
+            elif r < 0.65:
+                kw[att] = rng.choice(top)
+                tags.append(att + ":max")
+    return kw, sorted(tags)
 
 
 def apply_style(style, kw):
@@ -246,6 +263,18 @@ def make_dataset(rng, idx, shape, opts, label=None, force=None):
     d.add_component(common.rand_floats(rng, shape, p_special=0.2), "v")
     d.add_component(common.injective_floats(rng, shape), "w")
     info["numeric"] += ["v", "w"]
+    # where derived columns sit among the stored ones (Data.components order must survive the trip)
+    order_mode = force.get("order_mode") or opts.get("order_mode") or rng.choice(ORDER_MODES)
+    info["order_mode"] = order_mode
+    dkinds = list(opts.get("derived_kinds", ["binary", "binary_nested", "function", "identity", "multi", "parsed"]))
+    arith_ok = "binary" in dkinds
+    if order_mode == "derived_early":
+        # derived columns (arithmetic and function link) added *before* further stored columns
+        if arith_ok:
+            d.add_component_link(d.id["w"] * 2 + d.id["v"], "der_early_arith")
+            info["derived"]["der_early_arith"] = "binary"
+        d.add_component_link(ComponentLink([d.id["w"]], ComponentID("der_early_fn"), using=f_double), "der_early_fn")
+        info["derived"]["der_early_fn"] = "function"
     d.add_component(common.rand_ints(rng, shape, 0, 4), "i")
     info["numeric"].append("i")
     if rng.random() < 0.4 or force.get("k"):
@@ -277,7 +306,6 @@ def make_dataset(rng, idx, shape, opts, label=None, force=None):
                 d.get_component(d.id[lab]).units = u
                 info["units"][lab] = u
     # derived components of every link flavour
-    dkinds = list(opts.get("derived_kinds", ["binary", "binary_nested", "function", "identity", "multi", "parsed"]))
     for kind in rng.sample(dkinds, rng.randint(0, min(3, len(dkinds)))):
         name = "der_" + kind
         if kind == "binary":
@@ -295,10 +323,34 @@ def make_dataset(rng, idx, shape, opts, label=None, force=None):
             pc = ParsedCommand("{w} * 3 + {i}", {"w": d.id["w"], "i": d.id["i"]})
             d.add_component_link(ParsedComponentLink(ComponentID(name), pc), name)
         info["derived"][name] = kind
+    if order_mode in ("reorder_first", "reorder_middle", "reversed_chain", "first_overall"):
+        # derived-of-derived chains (function and arithmetic), then an explicit reorder_components()
+        d.add_component_link(ComponentLink([d.id["w"]], ComponentID("der_fn0"), using=f_double), "der_fn0")
+        d.add_component_link(ComponentLink([d.id["der_fn0"]], ComponentID("der_chain_fn"), using=f_half), "der_chain_fn")
+        info["derived"].update(der_fn0="function", der_chain_fn="function")
+        if arith_ok:
+            d.add_component_link(d.id["w"] * 2, "der_ar0")
+            d.add_component_link(d.id["der_ar0"] + 1, "der_chain_arith")
+            info["derived"].update(der_ar0="binary", der_chain_arith="binary")
+        coord = list(d.pixel_component_ids) + list(d.world_component_ids)
+        derived = list(d.derived_components)
+        main = [c for c in d.components if not any(c is x for x in coord + derived)]
+        if order_mode == "reorder_first":
+            new = coord + derived[::-1] + main
+        elif order_mode == "reorder_middle":
+            h = rng.randint(1, max(1, len(main) - 1))
+            rng.shuffle(derived)
+            new = coord + main[:h] + derived + main[h:]
+        elif order_mode == "reversed_chain":
+            new = coord + main + derived[::-1]       # every chain output is stored before its input
+        else:   # "first_overall" (probe): derived columns even ahead of the pixel / world coordinates
+            new = derived[::-1] + coord + main
+        d.reorder_components(new)
     if opts.get("style", True) and rng.random() < 0.7:
-        st = rand_style(rng)
+        st, tags = rand_style(rng)
         apply_style(d.style, st)
         info["style"] = True
+        info["style_extremes"] = tags
     if opts.get("meta", True):
         for k, v, plain in rand_meta(rng, opts.get("poison")):
             d.meta[k] = v
@@ -771,6 +823,10 @@ def build_session(rng, opts=None, workdir=None):
         force[0]["coords"] = force[1]["coords"] = "wcs"
     if want_link == "LinkAligned" or probe == "link:LinkAligned":
         shapes[1] = shapes[0]
+    if probe == "order:derived_first_overall":
+        force[rng.randrange(nds)]["order_mode"] = "first_overall"
+        files = False
+        ses.include_data = True
     for i in range(nds):
         if files and (i == 0 or rng.random() < 0.5):
             ses.ds.append(load_file_dataset(rng, i, workdir, opts))
@@ -852,11 +908,12 @@ def build_session(rng, opts=None, workdir=None):
         if label is not None:
             kw["label"] = label
         grp = dc.new_subset_group(subset_state=state, **kw)
-        styled = False
+        styled, tags = False, []
         if opts.get("style", True) and rng.random() < 0.6:
-            apply_style(grp.style, rand_style(rng))
+            st, tags = rand_style(rng)
+            apply_style(grp.style, st)
             styled = True
-        desc["groups"].append({"on": k, "sig": sig, "label": label, "styled": styled})
+        desc["groups"].append({"on": k, "sig": sig, "label": label, "styled": styled, "style_extremes": tags})
     # a named leaf kind, once at top level and once below a composite (where the general restrictions admit it)
     if want_leaf:
         cand = [k for k in range(nds) if leaf_domain_ok(want_leaf, ses.ds[k], k, True, opts)]
@@ -939,7 +996,7 @@ def build_session(rng, opts=None, workdir=None):
 
 PROBES = ["state:parsed", "state:slice_nested", "state:slice_later_dataset", "state:floodfill_later_dataset",
           "link:LinkAligned", "link:LinkSameWithUnits", "link:MultiLink", "link:ComponentLink_lambda", "roi:PointROI",
-          "meta:nested_unserialisable", "style:preferred_cmap"]
+          "meta:nested_unserialisable", "style:preferred_cmap", "order:derived_first_overall"]
 PROBES_NEED_TWO = ["state:slice_later_dataset", "state:floodfill_later_dataset", "link:LinkAligned",
                    "link:LinkSameWithUnits", "link:MultiLink", "link:ComponentLink_lambda"]
 
@@ -1023,7 +1080,11 @@ def comp_kind(d, cid, comp):
 def style_obs(style):
     out = {}
     for a in ("color", "alpha", "linewidth", "linestyle", "marker", "markersize"):
-        out[a] = getattr(style, a, "<missing>")
+        v = getattr(style, a, "<missing>")
+        # exact comparison, and 0 must not pass for False / 0.0 pass for a default: keep value and numeric type apart
+        out[a] = v
+    cm = getattr(style, "preferred_cmap", "<missing>")
+    out["preferred_cmap"] = getattr(cm, "name", cm)
     return out
 
 
